@@ -47,13 +47,13 @@ def rnd_radius(rnd, lo, hi=800.0, p_plane=0.15):
 def random_lens(rnd, nsurf=None, kinds=("standard",), mirrors=False, tilts=False, catalogue=False,
                 finite_object=None, aperture="EPD", field_type=None, apertures=False, coatings=False,
                 absorbing=False, max_field=None, wavelengths=None, conics=True, stop=None,
-                poly_pow2=True, curved_image=False):
+                poly_pow2=True, curved_image=False, optic=None):
     """Returns (optic, meta).  Everything goes through the public API."""
     from optiland.optic import Optic
     from optiland.materials import IdealMaterial
     from optiland.physical_apertures import RadialAperture
     from optiland.coatings import SimpleCoating
-    o = Optic()
+    o = optic if optic is not None else Optic()      # optic: a re-used (reset) Optic to build on
     n = nsurf if nsurf is not None else rnd.randint(1, 8)
     if finite_object is None:
         finite_object = rnd.random() < 0.35
@@ -78,9 +78,17 @@ def random_lens(rnd, nsurf=None, kinds=("standard",), mirrors=False, tilts=False
         if kind == "even_asphere":
             kw["coefficients"] = [rnd.uniform(-1, 1) * 1e-4 / lo ** (2 * q + 1) for q in range(rnd.randint(1, 3))]
         elif kind == "polynomial":
-            kw["coefficients"] = [[0.0, rnd.uniform(-2e-3, 2e-3)],
-                                  [rnd.uniform(-2e-3, 2e-3), rnd.uniform(-1e-4, 1e-4)],
-                                  [rnd.uniform(-1e-4, 1e-4), 0.0]]
+            # every shape of coefficient matrix: tall, wide, square, and a flat list (1 x n)
+            lin, quad = (lambda: rnd.uniform(-2e-3, 2e-3)), (lambda: rnd.uniform(-1e-4, 1e-4))
+            shape = rnd.choice(["tall", "wide", "square", "flat"])
+            if shape == "tall":
+                kw["coefficients"] = [[0.0, lin()], [lin(), quad()], [quad(), 0.0]]
+            elif shape == "wide":
+                kw["coefficients"] = [[0.0, lin(), quad()], [lin(), quad(), 0.0]]
+            elif shape == "square":
+                kw["coefficients"] = [[0.0, lin(), quad()], [lin(), quad(), 0.0], [quad(), 0.0, 0.0]]
+            else:
+                kw["coefficients"] = [0.0, lin(), quad(), quad() / lo]
         elif kind == "chebyshev":
             kw["coefficients"] = [[0.0, rnd.uniform(-1e-2, 1e-2)],
                                   [rnd.uniform(-1e-2, 1e-2), rnd.uniform(-1e-2, 1e-2)],
